@@ -199,6 +199,13 @@ class Skel:
             elif _is_std(q):
                 self.std.add(q.rsplit("::", 1)[-1])
             else:
+                g = self.ctx.F.by_qname.get(q, [])
+                if len(g) == 1 and not g[0].reach and not g[0].in_testonly() and depth < 8 and q not in load():
+                    # a crate-private helper (however many callers it has) is read through: its ingredients are the caller's
+                    body = Inliner(self.ctx).inline_fn(q, list(t[2]))
+                    if body is not None:
+                        self.walk(body, depth + 1)
+                        return
                 self.items.add("call:%s" % _short(q))
                 self._const_operands(t[2])
             for a in t[2]:
